@@ -105,19 +105,21 @@ def run(p, led, tier):
     # dispatchers by role: the method each public entry point hands (raw, schema, strategy) to
     def dispatcher_of(entry):
         e = p.find_method(chap, entry)
-        cands = []
-        for n in walk_no_nested(e.node):
-            if isinstance(n, ast.Call):
-                for g in res.resolve_call(e, n):
-                    if g.cls is chap and g is not e and any("strategy" in a.lower() or (x.annotation is not None and "FoldingStrategy" in src(x.annotation))
-                                                            for a, x in ((x.arg, x) for x in g.node.args.args)) and len([a for a in g.params() if a != "self"]) >= 3:
-                        cands.append(g)
+
+        def strategy_taking(g):
+            return g.cls is chap and g is not e and len([a for a in g.params() if a != "self"]) >= 3 and any(
+                "strategy" in x.arg.lower() or (x.annotation is not None and "FoldingStrategy" in src(x.annotation)) for x in g.node.args.args)
+        cands = [g for g in res.reachable_from(e) if strategy_taking(g)]
         uniq = {g.key: g for g in cands}
         if len(uniq) > 1:
-            # the dispatcher is the one that reaches the schema validation
+            # the dispatcher is the one that reaches the schema validation ...
             def validates(g):
                 return any(isinstance(c, ast.Call) and isinstance(c.func, ast.Attribute) and c.func.attr == "model_validate" for h in res.reachable_from(g) for c in ast.walk(h.node))
             uniq = {k: g for k, g in uniq.items() if validates(g)}
+        if len(uniq) > 1:
+            # ... and the innermost such function (per-strategy drivers around it take the strategy too)
+            inner = {k: g for k, g in uniq.items() if not any(h is not g and h.key in uniq for h in res.reachable_from(g))}
+            uniq = inner or uniq
         if len(uniq) != 1:
             raise AnchorError(f"Chaperone.{entry}: expected one per-strategy dispatcher, found {[g.qual for g in uniq.values()]}")
         return next(iter(uniq.values()))
